@@ -1,14 +1,112 @@
 /-
-C15 — multipart limits are exact, buffering is bounded (property theorems).
+C15 — multipart limits are exact and enforced with bounded buffering.
+
+Property theorems only; vocabulary as in `Props/C01.lean`.
 -/
-import BaizeVerif.Model.Multipart
+import BaizeVerif.Lemmas.MultipartBound
+import BaizeVerif.Props.C01
 
 namespace Baize.Multipart
 
-/-- tie to the source: defaults and comparison operators of the two helpers -/
+/-- tie to the source: defaults and comparison operators of the two helpers
+(extract.py additionally refuses to generate when the sync and the async helper differ) -/
 theorem limits_pinned :
     Gen.Multipart.maxFormPartsDefault = 324 ∧ Gen.Multipart.maxFormMemoryDefaultNone = true ∧
     Gen.Multipart.partsCheck = "Gt max_form_parts" ∧ Gen.Multipart.memCheck = "Gt max_form_memory_size" := by
   decide
+
+/-- **C15.1 — limits are exact, for every chunking.**  Parsing a well-formed form
+fails with 413 exactly when the number of parts exceeds `max_form_parts` or the
+total size of the non-file field data exceeds `max_form_memory_size`; otherwise
+it succeeds with the encoded items.  (`parse_stream` and `parse_async_stream`
+are the same model function; the correspondence runs both.) -/
+theorem limit_exact (b pre epi : Bytes) (parts : List Part) (cfg : Cfg) (cs : Charset)
+    (hform : FormOK b pre cs parts) (chunks : List Bytes)
+    (h : chunks.flatten = encode b pre parts epi) :
+    (parseStream b cfg cs chunks = .tooLarge ↔
+      (parts.length > cfg.maxParts ∨ memExceeded cfg (fieldBytes parts) = true)) ∧
+    (¬ (parts.length > cfg.maxParts ∨ memExceeded cfg (fieldBytes parts) = true) →
+      parseStream b cfg cs chunks = .ok (parts.filterMap (itemOf cs))) := by
+  rw [parseStream_exact b pre epi parts cfg cs hform chunks h]
+  unfold expected
+  by_cases hover : parts.length > cfg.maxParts ∨ memExceeded cfg (fieldBytes parts) = true
+  · have : (decide (parts.length > cfg.maxParts) || memExceeded cfg (fieldBytes parts)) = true := by
+      rcases hover with h1 | h1 <;> simp [h1]
+    simp [this, hover]
+  · have : (decide (parts.length > cfg.maxParts) || memExceeded cfg (fieldBytes parts)) = false := by
+      simp only [not_or, Bool.not_eq_true] at hover
+      simp [hover.2]; omega
+    simp [this, hover]
+
+/-- `memExceeded` is the plain comparison with the configured limit -/
+theorem memExceeded_iff (cfg : Cfg) (m : Nat) :
+    memExceeded cfg m = true ↔ ∃ mm, cfg.maxMem = some mm ∧ m > mm := by
+  unfold memExceeded
+  split
+  · rename_i mm h; simp [h]
+  · rename_i h; simp [h]
+
+/-- **C15.2 — the hold-back index, for arbitrary bytes.**  What
+`last_newline()` keeps in the buffer is at most a line break, `--boundary` and
+one dash or the run of padding blanks at the end of the buffer. -/
+theorem holdback_bound (b buf : Bytes) :
+    buf.length - holdBack (marker b) buf ≤ (marker b).length + 3 + trailingBlanks buf :=
+  holdBack_bound (marker b) buf
+
+/-- **C15.3 — bounded buffering while streaming, for ARBITRARY input.**  Whenever
+the helper has drained a chunk and waits for the next one with the decoder in
+the DATA state, the decoder's buffer (bytes received but not yet handed to the
+file sink or counted against the field limit) is at most `len(boundary) + 5`
+bytes plus the padding blanks just received — independent of the chunk size and
+of the size of the part.  No well-formedness is assumed. -/
+theorem streaming_buffer_bound (b : Bytes) (cfg : Cfg) (cs : Charset) (s s' : HS) (chunk : Bytes)
+    (hnc : s.dec.complete = false) (hfeed : feed b cfg cs s chunk = .continue s')
+    (hst : s'.dec.st = .data) :
+    s'.dec.buf.length ≤ b.length + 5 + trailingBlanks s'.dec.buf := by
+  unfold feed at hfeed
+  simp only at hfeed
+  cases hd : drain b cfg cs ((receive s.dec (some chunk)).buf.length + 2)
+      { s with dec := receive s.dec (some chunk) } with
+  | «continue» s1 =>
+    -- `drain` never returns `continue`
+    exfalso
+    have : ∀ (fuel : Nat) (t t' : HS), drain b cfg cs fuel t ≠ .continue t' := by
+      intro fuel
+      induction fuel with
+      | zero => intro t t' h; simp [drain] at h
+      | succ fuel ih =>
+        intro t t' h
+        rw [drain_succ] at h
+        cases hs : stepOnce b cfg cs t with
+        | «continue» t1 => rw [hs] at h; exact ih t1 t' h
+        | «break» t1 => rw [hs] at h; cases h
+        | raise r => rw [hs] at h; cases h
+    exact this _ _ _ hd
+  | raise r => rw [hd] at hfeed; cases hfeed
+  | «break» s1 =>
+    rw [hd] at hfeed
+    simp only [Step.continue.injEq] at hfeed
+    obtain ⟨_, hev⟩ := drain_break_needData (b := b) (cfg := cfg) (cs := cs) _ _ s1
+      (by simpa [receive] using hnc) (by simp) hd
+    subst hfeed
+    have := data_wait_bound b cs s1.dec hst hev
+    simp only [marker, List.length_cons] at this
+    omega
+
+/-! ### Non-vacuity -/
+
+/-- the bound is met with equality-order tightness by a buffer that ends in a
+complete-looking delimiter line still waiting for its line break -/
+example : holdBack (marker [98, 100]) [120, 13, 10, 45, 45, 98, 100, 32, 32] = 1 ∧
+    trailingBlanks [120, 13, 10, 45, 45, 98, 100, 32, 32] = 2 := by decide
+
+/-- a part starting with a lone CR followed by text without line break (the
+shape that the unrepaired `last_newline()` buffered whole) is emitted at once -/
+example : holdBack (marker [98, 100]) ([13] ++ List.replicate 50 120) = 51 := by decide
+
+example : (match feed [98, 100] {} .latin1 { dec := { st := .data } } ([13] ++ List.replicate 50 120) with
+    | .continue s' => (s'.dec.buf.length, s'.data.length, s'.mem)
+    | _ => (999, 0, 0)) = (0, 51, 51) := by
+  decide +kernel
 
 end Baize.Multipart
